@@ -11,7 +11,6 @@ import (
 var ownTriggers = map[string][]string{
 	"C01": {"len-merge-split", "enum-hash-collision"},
 	"C02": {"fail-in-commit", "rollback-insert", "phantom-reserved"},
-	"C04": {"union-after-clear", "agg-missing-value"},
 	"C05": {"len-merge-put"},
 	"C08": {"snapshot-reserved"},
 	"C11": {"put-delete", "merge-absent"},
@@ -24,7 +23,7 @@ var ownTriggers = map[string][]string{
 // knownAvoid returns the generator/executor avoidance switches for a run.
 func knownAvoid(prop string, seed uint64, run int) avoid {
 	a := avoid{putThenDelete: true, failInCommit: true, mergeAfterReuse: true, lenMergeThenPut: true, lenMergeSplit: true, dupKeyInTxn: true,
-		aggStale: true, rollbackInsert: true, unionAfterClear: true, doubleDelete: true, phantomReserved: true,
+		rollbackInsert: true, doubleDelete: true, phantomReserved: true,
 		snapshotReserved: true, concurrentKeyInsert: true, ttlDuringPass: true, schemaChange: true, blockGrowth: true, enumBesideReaders: true, enumCollision: true}
 	r := NewRng(seed, uint64(run), 1234)
 	allow := func(name string) {
@@ -41,12 +40,8 @@ func knownAvoid(prop string, seed uint64, run int) avoid {
 			a.lenMergeSplit = false
 		case "dup-key-in-txn":
 			a.dupKeyInTxn = false
-		case "agg-missing-value":
-			a.aggStale = false
 		case "rollback-insert":
 			a.rollbackInsert = false
-		case "union-after-clear":
-			a.unionAfterClear = false
 		case "double-delete":
 			a.doubleDelete = false
 		case "phantom-reserved":
